@@ -614,9 +614,12 @@ fn strict() -> ValidationOptions {
 
 pub fn run_line(line: &str) -> String {
     let f: Vec<&str> = line.split(' ').collect();
-    match run(&f) {
-        Some(x) => x,
-        None => "bad-op".to_string(),
+    // (every call into the crate has its own guard inside `run`; this outer one only keeps a case line that the
+    // harness itself cannot parse from taking the process, and the cases after it, down)
+    match catch_unwind(AssertUnwindSafe(|| run(&f))) {
+        Ok(Some(x)) => x,
+        Ok(None) => "bad-op".to_string(),
+        Err(_) => "harness-panic".to_string(),
     }
 }
 
